@@ -731,9 +731,22 @@ fn sweep_cases() -> Vec<(String, Vec<Call>)> {
         let th = if name == "children_inflight_on_child" { 1 } else { 0 };
         let tail = vec![cap(Cp::Append(4), th, Params::default()), cap(Cp::CompactionStatus, th, Params { stride: Some(2), ..Default::default() })];
         if name != "empty_store" {
-            let mut c = setup.clone();
-            c.extend(full_param_sweep(th, 0));
-            c.extend(tail.clone());
+            // A state made by a cache fault (+ restart) lasts only until the first call that rebuilds the
+            // caches: the fault is applied again before EVERY call of the sweep, so that each parameter
+            // combination of each capability meets the faulted state itself.
+            let k = setup.iter().rposition(|c| matches!(c, Call::Cap { .. })).map(|i| i + 1).unwrap_or(0);
+            let refault: Vec<Call> = setup[k..].to_vec();
+            let mut c = setup[..k].to_vec();
+            for call in full_param_sweep(th, 0) {
+                c.extend(refault.clone());
+                c.push(call);
+            }
+            if refault.is_empty() {
+                c.extend(tail.clone());
+            } else {
+                c.extend(refault.clone());
+                c.extend(tail.clone());
+            }
             out.push((format!("sweep/{name}/known"), c));
         }
         let mut c = setup.clone();
